@@ -144,10 +144,20 @@ class C05(Check):
         return out
 
     # ------------------------------------------------------------------
-    def _check_one(self, raw, buf, sched, expect, what):
+    def _check_one(self, raw, buf, sched, expect, what, clk=None):
+        bad = self._check_one_cl(raw, buf, sched, expect, what, clk)
+        if bad and clk is not None:      # the key stays the site; the message says which framing headers were sent
+            bad = (bad[0], bad[1] + f' [Transfer-Encoding: chunked together with a Content-Length header ({clk})]')
+        return bad
+
+    def _check_one_cl(self, raw, buf, sched, expect, what, clk):
         """expect: ('ok', payload) | ('reject',) | ('total',) | ('ok-or-reject', payload)"""
-        r = bl.run_read(raw, sched, buf, -1, True, None)
-        w = bl.run_wsgi('@', buf, None, None, 'chunked', raw, sched, ['B'])
+        # a Content-Length header next to Transfer-Encoding: chunked (rfc7230 3.3.3: the transfer coding decides
+        # the framing, the length does not) - equal to the bytes sent, shorter, longer, zero; for the same request
+        # without one the answer must be the same, so one expectation serves all of them
+        clv = {None: None, 'len': len(raw), 'short': max(0, len(raw) - 3), 'long': len(raw) + 9, 'zero': 0, 'three': 3}[clk]
+        r = bl.run_read(raw, sched, buf, -1 if clv is None else clv, True, None)
+        w = bl.run_wsgi('@', buf, None, None if clv is None else str(clv), 'chunked', raw, sched, ['B'])
         got_w = w['info'].get('bodies', [None])[0] if w['status'] == 200 else None
         if r['err'] == 'HANG' or w['status'] == 'HANG':
             return 'hang', f'{what}: the decoder does not terminate'
@@ -209,28 +219,28 @@ class C05(Check):
             return ('overlap:result-differs-from-solo', bad) if bad else None
         sched = case['sched']
         if kind == 'raw':
-            return self._check_one(bytes.fromhex(case['raw']), case['buf'], sched, ('total',), 'garbage')
+            return self._check_one(bytes.fromhex(case['raw']), case['buf'], sched, ('total',), 'garbage', case.get('clh'))
         enc = bl.Enc([(bytes.fromhex(p), bytes.fromhex(s), bytes.fromhex(e)) for p, s, e in case['chunks']],
                      (bytes.fromhex(case['last'][0]), bytes.fromhex(case['last'][1])), bytes.fromhex(case['trailer']))
         raw, buf = enc.encode(), case['buf']
         if kind == 'legal':
             if buf >= enc.max_line():
-                return self._check_one(raw, buf, sched, ('ok', enc.payload()), 'legal')
-            return self._check_one(raw, buf, sched, ('ok-or-reject', enc.payload()), 'long-line')
+                return self._check_one(raw, buf, sched, ('ok', enc.payload()), 'legal', case.get('clh'))
+            return self._check_one(raw, buf, sched, ('ok-or-reject', enc.payload()), 'long-line', case.get('clh'))
         if kind == 'prefix':
-            return self._check_one(raw[:case['cut']], buf, sched, ('reject',), 'prefix')
+            return self._check_one(raw[:case['cut']], buf, sched, ('reject',), 'prefix', case.get('clh'))
         if kind == 'crlf':
             o = case['off']
             bad = raw[:o] + bytes.fromhex(case['pair']) + raw[o + 2:]
-            return self._check_one(bad, buf, sched, ('reject',), 'missing-crlf')
+            return self._check_one(bad, buf, sched, ('reject',), 'missing-crlf', case.get('clh'))
         if kind == 'crlf-del':
             o = case['off']
             bad = raw[:o] + raw[o + 1:]
-            return self._check_one(bad, buf, sched, ('reject',), 'missing-crlf')
+            return self._check_one(bad, buf, sched, ('reject',), 'missing-crlf', case.get('clh'))
         if kind == 'subst':
             o = case['off']
             bad = raw[:o] + bytes([case['byte']]) + raw[o + 1:]
-            return self._check_one(bad, buf, sched, ('total',), 'garbage')
+            return self._check_one(bad, buf, sched, ('total',), 'garbage', case.get('clh'))
         raise AssertionError(kind)
 
     def _cases_of(self, rng, enc, buf, dense):
@@ -240,6 +250,8 @@ class C05(Check):
         scheds = [[], [1] * (len(raw) + 2)]
 
         def mk(**kw):
+            if rng.random() < (.5 if dense else .3):
+                kw['clh'] = rng.choice(['len', 'len', 'short', 'long', 'zero', 'three'])
             if kw['probe'] in ('crlf', 'crlf-del') or dense:     # full 2-byte reads and 1-byte reads alike
                 scheds.append(scheds.pop(0))
                 if rng.random() < .8:
@@ -326,6 +338,8 @@ class C05(Check):
             raw, _ = mutate(rng, enc)
             cases.append(dict(probe='raw', raw=raw.hex(), buf=rng.choice([0, 1, 2, 4, 8, 64]),
                               sched=bl.gen_sched(rng, max(1, len(raw)))))
+            if rng.random() < .3:
+                cases[-1]['clh'] = rng.choice(['len', 'short', 'long', 'zero', 'three'])
         for c in cases:
             evals += 1
             try:
